@@ -123,9 +123,6 @@ fn fnv64(b: &[u8]) -> u64 {
     }
     h
 }
-fn unhex(s: &str) -> Vec<u8> {
-    (0..s.len() / 2).map(|i| u8::from_str_radix(&s[2 * i..2 * i + 2], 16).unwrap_or(0)).collect()
-}
 
 #[derive(Default)]
 struct Findings {
@@ -134,7 +131,7 @@ struct Findings {
 }
 
 /// explore one configuration with the given bound; returns (executions, pruned, stopped, max_steps, max_options)
-fn explore(cfg: &Cfg18, reference: Arc<Vec<u8>>, bound: usize, budget: u64, fixed: Option<Vec<usize>>, findings: Arc<Mutex<Findings>>) -> Result<(u64, bool, bool, usize, usize), String> {
+fn explore(cfg: &Cfg18, reference: Arc<(usize, u64)>, bound: usize, budget: u64, fixed: Option<Vec<usize>>, findings: Arc<Mutex<Findings>>) -> Result<(u64, bool, bool, usize, usize), String> {
     let shared = Arc::new(Mutex::new(Shared::default()));
     let mut sched = DevDfs::new(bound, budget, shared.clone());
     sched.fixed = fixed;
@@ -151,9 +148,8 @@ fn explore(cfg: &Cfg18, reference: Arc<Vec<u8>>, bound: usize, budget: u64, fixe
             match out {
                 Ok(bytes) => {
                     f.outputs.insert(fnv64(&bytes));
-                    if bytes != *reference && f.mismatch.is_none() {
-                        let at = bytes.iter().zip(reference.iter()).position(|(a, b)| a != b).unwrap_or(bytes.len().min(reference.len()));
-                        f.mismatch = Some((sh2.lock().unwrap().current.clone(), format!("output differs from the single-threaded file at byte {at} ({} vs {} bytes)", bytes.len(), reference.len())));
+                    if (bytes.len(), fnv64(&bytes)) != *reference && f.mismatch.is_none() {
+                        f.mismatch = Some((sh2.lock().unwrap().current.clone(), format!("output differs from the single-threaded file ({} bytes, fnv {:016x}; serial build: {} bytes, fnv {:016x})", bytes.len(), fnv64(&bytes), reference.0, reference.1)));
                     }
                 }
                 Err(e) => {
@@ -188,7 +184,7 @@ fn main() {
         let name = v["config"].as_str().unwrap();
         let cfg = configs18().into_iter().find(|c| c.name == name).expect("config");
         let sched: Vec<usize> = v["schedule"].as_array().unwrap().iter().map(|x| x.as_u64().unwrap() as usize).collect();
-        let reference = Arc::new(unhex(refs[name].as_str().unwrap()));
+        let reference = Arc::new((refs[name][0].as_u64().unwrap() as usize, u64::from_str_radix(refs[name][1].as_str().unwrap(), 16).unwrap()));
         let findings = Arc::new(Mutex::new(Findings::default()));
         let _ = explore(&cfg, reference, usize::MAX, 1, Some(sched), findings.clone());
         let f = findings.lock().unwrap();
@@ -206,7 +202,8 @@ fn main() {
     let tier = args.get(1).cloned().unwrap_or_else(|| "quick".into());
     let quick = tier == "quick";
     let t0 = std::time::Instant::now();
-    let budget: u64 = if quick { 60_000 } else { 3_000_000 };
+    let budget: u64 = if quick { 20_000 } else { 3_000_000 };
+    let sweep_budget: u64 = if quick { 1_500 } else { 100_000 };
     let known: Vec<String> = std::fs::read("/verif/known_findings.json").ok().and_then(|b| serde_json::from_slice::<Value>(&b).ok()).map(|k| k["known"].as_array().into_iter().flatten().filter(|x| x["property"] == "C18").map(|x| x["signature"].as_str().unwrap_or("").to_string()).collect()).unwrap_or_default();
     let cfgs = configs18();
     // configurations are independent: explore them on a pool of OS threads (each exploration itself is single-threaded)
@@ -226,14 +223,15 @@ fn main() {
                 break;
             }
             let cfg = &cfgs[i];
-            let reference = match refs[&cfg.name].as_str() {
-                Some(h) => Arc::new(unhex(h)),
+            let reference = match refs[&cfg.name].as_array() {
+                Some(a) => Arc::new((a[0].as_u64().unwrap_or(0) as usize, u64::from_str_radix(a[1].as_str().unwrap_or("0"), 16).unwrap_or(0))),
                 None => {
                     results.lock().unwrap().push(json!({"config": cfg.name, "machinery": "no reference"}));
                     continue;
                 }
             };
             let findings = Arc::new(Mutex::new(Findings::default()));
+            let budget = if cfg.name.starts_with("sweep-") { sweep_budget } else { budget };
             let mut bound = 0usize;
             let (mut total, mut completed_bound, mut exhaustive, mut steps, mut options, mut last_n) = (0u64, None, false, 0usize, 0usize, 0u64);
             loop {
@@ -300,14 +298,16 @@ fn main() {
         "property_id": "C18", "tier": tier, "seed": std::env::var("VERIF_SEED").ok().and_then(|s| s.parse::<u64>().ok()).unwrap_or(0), "level": "model_checking",
         "coverage": {
             "states": states.max(1), "transitions": transitions.max(1), "traces_validated_against_impl": execs,
-            "samples": results.iter().take(4).cloned().collect::<Vec<_>>(),
+            "samples": results.iter().filter(|r| !r["config"].as_str().unwrap_or("").starts_with("sweep-")).take(4).cloned().collect::<Vec<_>>(),
             "evaluations": execs.max(1), "distinct_nontrivial": results.len(),
-            "rule": "one exploration per configuration (file writer / stream writer × channels 1,2,3,8 × mid-side/fast correlation variants × LPC none/2 × 2 signals × 1 or 3 frames): every schedule of the rayon tasks with ≤ b deviations from the default schedule, b increased until no alternative is pruned (= all schedules) or the execution budget is reached; each execution is the REAL encoder built with the rayon feature over a model of rayon on the shuttle runtime; oracle: bytes identical to the feature-less build's file; states = schedules at the completed bound, transitions = executions × scheduling points",
+            "rule": "one exploration per configuration (84 base configurations: file writer / stream writer × channels 1,2,3,8 × mid-side/fast correlation variants × LPC none/2 × 2 signals × 1 or 3 frames; plus an input sweep of 120 signals × {mono, stereo exhaustive, stereo fast ± mid-side} × LPC 2/8 on one 16-sample block, and 1440 signals × LPC 2/8 mono + 120 stereo on one 576-sample block, with a smaller budget): every schedule of the rayon tasks with ≤ b deviations from the default schedule, b increased until no alternative is pruned (= all schedules) or the execution budget is reached; each execution is the REAL encoder built with the rayon feature over a model of rayon on the shuttle runtime; oracle: bytes identical to the feature-less build's file; states = schedules at the completed bound, transitions = executions × scheduling points",
             "exhaustive": caps.is_empty(),
             "caps_hit": caps,
             "max_distinct_outputs_per_configuration": distinct,
-            "per_configuration": results,
-            "budget_executions_per_bound": budget,
+            "per_configuration": results.iter().filter(|r| !r["config"].as_str().unwrap_or("").starts_with("sweep-") || !r["mismatch"].is_null()).cloned().collect::<Vec<_>>(),
+            "sweep_configurations": results.iter().filter(|r| r["config"].as_str().unwrap_or("").starts_with("sweep-")).count(),
+            "sweep_all_schedules": results.iter().filter(|r| r["config"].as_str().unwrap_or("").starts_with("sweep-") && r["all_schedules"] == true).count(),
+            "budget_executions_per_bound": budget, "sweep_budget_executions_per_bound": sweep_budget,
             "known_findings": knownn,
         },
         "assumptions": [
